@@ -819,6 +819,12 @@ def draw(rng, g, sess, kind, pick):
         if not free:
             return None
         args = rng.sample(free, min(len(free), rng.randint(1, 3)))
+        # often the same setter as last time (same name, same references): whatever gen_fun keeps between two calls must
+        # follow the definitions removed or replaced in between
+        last = getattr(sess, "last_genfun", None)
+        if last and rng.random() < 0.6 and all(q in free for q in last):
+            args = last
+        sess.last_genfun = args
         return {"op": "genfun", "args": [[q, rng.randint(-6, 9)] for q in args]}
     raise ValueError(kind)
 
@@ -846,6 +852,22 @@ def scenario_c13_container(hist_id, stats, failures):
         failures.append({"property": "C13", "kind": "function-differs-from-assignments", "hist": hist_id, "op_index": 0,
                          "detail": {"scenario": "definition reads the enclosing container", "via_function": out[0], "via_assignment": out[1]},
                          "known": None})
+
+
+def c13_corpus():
+    """the same setter (same name, same references) generated again after the definitions changed"""
+    X, Y, W_, Z = (["d", ["i", k]] for k in "xywz")
+    base = [{"op": "reset"}, {"op": "container", "label": "d", "value": {"d": [["x", 1], ["y", 0], ["w", 0], ["z", 0]]}},
+            {"op": "setexpr", "path": Y, "expr": ["bin", "Mul", ["ref", X], ["lit", 2]]},
+            {"op": "setexpr", "path": W_, "expr": ["bin", "Add", ["ref", Y], ["lit", 1]]}]
+    g = lambda v: {"op": "genfun", "args": [[X, v]]}
+    # a definition removed (plain value / unregister) between two generations
+    yield base + [g(3), {"op": "set", "path": Y, "value": 10}, g(4)]
+    yield base + [g(3), {"op": "unregister", "id": W_}, g(4)]
+    # a definition replaced / added between two generations
+    yield base + [g(3), {"op": "setexpr", "path": Y, "expr": ["bin", "Sub", ["ref", X], ["lit", 1]]}, g(4)]
+    yield base + [g(3), {"op": "setexpr", "path": Z, "expr": ["bin", "Add", ["ref", X], ["lit", 10]]}, g(4),
+                  {"op": "set", "path": Z, "value": 0}, g(5)]
 
 
 def c17_corpus():
@@ -877,6 +899,9 @@ def run_history(rng, family, hist_id, out_lines, stats, failures, maxops):
         free = [q for q in sess.P if pkey(q) not in sess.mirror.defs and not any(comparable(q, b) for b in blk)]
         if free and not sess.frozen:
             args = rng.sample(free, min(len(free), rng.randint(1, 3)))
+            last = getattr(sess, "last_genfun", None)
+            if last and rng.random() < 0.6 and all(q in free for q in last):
+                args = last
             sess.step({"op": "genfun", "args": [[q, rng.randint(-6, 9)] for q in args]})
     if family == "c03" and not sess.frozen:
         try:
@@ -1074,6 +1099,11 @@ def main():
             stats["histories"] += 1
     if a.corpus and a.family == "c13":
         scenario_c13_container(hid, stats, failures); hid += 1
+        for ops in c13_corpus():
+            sess = replay_ops(ops, hid, stats, failures, a.family)
+            lines.extend(sess.lines)
+            hid += 1
+            stats["histories"] += 1
     elif a.corpus and a.family == "c17":
         for ops in c17_corpus():
             sess = replay_ops(ops, hid, stats, failures, a.family)
